@@ -280,3 +280,205 @@ def tm_run(T, w, k):
         if q == T.q_reject:
             return False, trace
     return None, trace
+
+
+# ------------------------------------------------------------------ CFG (span saturation on the original grammar)
+def cfg_rules(G):
+    """[(lhs, [(kind, name)...])] read from the object fields only."""
+    from gambatools.cfg import Variable
+    return [(str(r.variable), [('v' if isinstance(x, Variable) else 't', str(x)) for x in r.alternative.symbols]) for r in G.R]
+
+
+def cfg_spans(rules, w):
+    """T[(A, i, j)] = True iff A =>* w[i:j]; least fixed point (handles epsilon and unit rules, cycles)."""
+    n = len(w)
+    T = set()
+    changed = True
+
+    def form_spans(rhs, i):
+        # set of end positions j such that rhs =>* w[i:j] under current T
+        ends = {i}
+        for kind, name in rhs:
+            new = set()
+            for e in ends:
+                if kind == 't':
+                    if e < n and w[e] == name:
+                        new.add(e + 1)
+                else:
+                    for j in range(e, n + 1):
+                        if (name, e, j) in T:
+                            new.add(j)
+            ends = new
+            if not ends:
+                break
+        return ends
+
+    while changed:
+        changed = False
+        for lhs, rhs in rules:
+            for i in range(n + 1):
+                for j in form_spans(rhs, i):
+                    if (lhs, i, j) not in T:
+                        T.add((lhs, i, j))
+                        changed = True
+    return T
+
+
+def cfg_accepts(rules, S, w):
+    return (S, 0, len(w)) in cfg_spans(rules, w)
+
+
+def cfg_lang(rules, S, Sigma, n):
+    import itertools
+    out = set()
+    for k in range(n + 1):
+        for t in itertools.product(sorted(Sigma), repeat=k):
+            w = ''.join(t)
+            if cfg_accepts(rules, S, w):
+                out.add(w)
+    return out
+
+
+# ------------------------------------------------------------------ PDA (exact, summary saturation)
+def pda_transitions(P):
+    return [(p, a, u, q, v) for (p, a, u), T in P.delta.items() for (q, v) in T]
+
+
+def pda_accepts(P, w):
+    """Exact acceptance by final state (any stack), via net-zero summaries Z and level summaries L on the PDA extended
+    with a draining state.  Nodes are (state, position)."""
+    eps = P.epsilon
+    n = len(w)
+    DR = ('__drain__',)
+    trans = pda_transitions(P)
+    trans += [(f, eps, eps, DR, eps) for f in P.F]
+    gam = set(P.Gamma) | {v for (_, _, u, _, v) in trans if v != eps} | {u for (_, _, u, _, _) in trans if u != eps}
+    trans += [(DR, eps, x, DR, eps) for x in gam]
+    states = set(P.Q) | {DR} | {t[0] for t in trans} | {t[3] for t in trans}
+
+    def steps(t):
+        p, a, u, q, v = t
+        if a == eps:
+            return [((p, i), (q, i)) for i in range(n + 1)]
+        return [((p, i), (q, i + 1)) for i in range(n) if w[i] == a]
+
+    noop, push, pop, repl = [], [], [], []
+    for t in trans:
+        p, a, u, q, v = t
+        for s, d in steps(t):
+            if u == eps and v == eps:
+                noop.append((s, d))
+            elif u == eps:
+                push.append((s, d, v))
+            elif v == eps:
+                pop.append((s, d, u))
+            else:
+                repl.append((s, d, u, v))
+    pushes_into = {}
+    for s, d, x in push:
+        pushes_into.setdefault((d, x), []).append(s)
+    pops_from = {}
+    for s, d, y in pop:
+        pops_from.setdefault((s, y), []).append(d)
+    repl_from = {}
+    for s, d, y, z in repl:
+        repl_from.setdefault((s, y), []).append((d, z))
+    Z, L = set(), set()
+    Zf, Zb = {}, {}      # forward / backward index
+    Lend = {}            # end node -> [(s, x, y)]
+    Lstart = {}
+    todo = []
+
+    def addZ(s, t):
+        if (s, t) not in Z:
+            Z.add((s, t))
+            Zf.setdefault(s, []).append(t)
+            Zb.setdefault(t, []).append(s)
+            todo.append(('Z', s, t))
+
+    def addL(s, x, t, y):
+        if (s, x, t, y) not in L:
+            L.add((s, x, t, y))
+            Lend.setdefault(t, []).append((s, x, y))
+            todo.append(('L', s, x, t, y))
+
+    nodes = [(q, i) for q in states for i in range(n + 1)]
+    for s in nodes:
+        addZ(s, s)
+    for s, d in noop:
+        addZ(s, d)
+    for (d, x) in pushes_into:
+        addL(d, x, d, x)
+    while todo:
+        f = todo.pop()
+        if f[0] == 'Z':
+            _, s, t = f
+            for u in list(Zf.get(t, ())):
+                addZ(s, u)
+            for r in list(Zb.get(s, ())):
+                addZ(r, t)
+            for (r, x, y) in list(Lend.get(s, ())):
+                addL(r, x, t, y)
+        else:
+            _, s, x, t, y = f
+            for u in list(Zf.get(t, ())):
+                addL(s, x, u, y)
+            for (d, z) in repl_from.get((t, y), ()):
+                addL(s, x, d, z)
+            for d in pops_from.get((t, y), ()):
+                for src in pushes_into.get((s, x), ()):
+                    addZ(src, d)
+    return ((P.q0, 0), (DR, n)) in Z
+
+
+def pda_lang(P, n):
+    import itertools
+    out = set()
+    for k in range(n + 1):
+        for t in itertools.product(sorted(P.Sigma), repeat=k):
+            w = ''.join(t)
+            if pda_accepts(P, w):
+                out.add(w)
+    return out
+
+
+def pda_eps_closure(P, R, cap):
+    """exact epsilon closure of a set of configurations (state, tuple stack); stops once more than `cap` configurations
+    are known.  Returns (set, complete?)."""
+    eps = P.epsilon
+    trans = [t for t in pda_transitions(P) if t[1] == eps]
+    seen = set(R)
+    todo = list(R)
+    while todo:
+        if len(seen) > cap:
+            return seen, False
+        q, st = todo.pop()
+        for (p, a, u, r, v) in trans:
+            if p != q:
+                continue
+            if u != eps and (not st or st[-1] != u):
+                continue
+            st1 = st if u == eps else st[:-1]
+            if v != eps:
+                st1 = st1 + (v,)
+            c = (r, st1)
+            if c not in seen:
+                seen.add(c)
+                todo.append(c)
+    return seen, len(seen) <= cap
+
+
+def pda_step(P, a, R):
+    eps = P.epsilon
+    out = set()
+    for q, st in R:
+        for (p, b, u, r, v) in pda_transitions(P):
+            if p != q or b != a:
+                continue
+            if u != eps and (not st or st[-1] != u):
+                continue
+            st1 = st if u == eps else st[:-1]
+            if v != eps:
+                st1 = st1 + (v,)
+            out.add((r, st1))
+    return out
